@@ -378,7 +378,7 @@ func constName(c *Ctx, pkg string, k *ssa.Const) string {
 }
 
 func init() {
-	Register(&Rule{ID: "R-TXN-10", Props: []string{"C01", "C20"}, Floor: 1,
+	Register(&Rule{ID: "R-TXN-10", Props: []string{"C01", "C20", "C09"}, Floor: 1,
 		Doc: "the auto-committing entry point is not re-entered from inside a transaction: the function in which the AutoCommit-gated commit lives ((*Processor).Execute) is not reachable, through static calls and closures, from (*Processor).ExecuteStatement — statements that run other statements (SOURCE, EXECUTE, IF, WHILE, functions) use the internal executor, otherwise every such statement would commit pending changes, release the locks and empty the view cache in the middle of the transaction",
 		Run: ruleTxn10})
 }
